@@ -8,6 +8,9 @@ import z3
 _cache = {}
 
 
+BRIDGES = []  # valid identities used by the rewriter since the list was last cleared
+
+
 def slen(t):
     """structural length of a sequence term as an Int term"""
     k = t.decl().kind() if z3.is_app(t) else None
@@ -106,9 +109,12 @@ def _extract(s, off, n):
         s0, a, k = s.children()
         if is_zero(k - (z3.Length(s0) - a)):
             # inner extract runs to the end of s0: the outer length alone decides (extract clamps at the end anyway)
-            return z3.Extract(s0, a, n)
-        m = z3.simplify(z3.If(n <= k, n, k))
-        return z3.Extract(s0, a, m)
+            r = z3.Extract(s0, a, n)
+        else:
+            r = z3.Extract(s0, a, z3.simplify(z3.If(n <= k, n, k)))
+        # the identity itself is handed to the solver too (hypotheses may mention the inner extract as a whole)
+        BRIDGES.append(z3.Extract(s, off, n) == r)
+        return r
     parts = flat(s)
     if len(parts) < 2:
         return None
